@@ -259,8 +259,8 @@ class NonFinite(Exception):
 
 
 class Sym:
-    """A number whose value is a z3 arithmetic term."""
-    __array_priority__ = 10000
+    """A number whose value is a z3 arithmetic term.  (No __array_priority__: a NumPy object array on the other side of
+    an operator must apply it element-wise, which then reaches these methods with scalars.)"""
 
     def __init__(self, engine, term):
         self.e = engine
@@ -318,7 +318,10 @@ class Sym:
         return self.e_uf("pow", self.term, ot)
 
     def __rpow__(self, o):
-        return self.e_uf("pow", _lift(self.e, o), self.term)
+        try:
+            return self.e_uf("pow", _lift(self.e, o), self.term)
+        except (TypeError, NonFinite):
+            return NotImplemented
 
     def e_uf(self, name, *terms):
         ts = [z3.ToReal(t) if t.sort() == z3.IntSort() else t for t in terms]
